@@ -520,13 +520,14 @@ class Parser:
     #     are restored
     #
     def get_text_expanded(self, toks):
-        extracted = self.extracted.copy()
+        n_extracted = len(self.extracted)
         settings = self.parms.parser_lang_settings.values()
         math_repls = [(s.math_repl_inline, s.math_repl_inline.copy(),
                         s.math_repl_display, s.math_repl_display.copy())
                                 for s in settings]
         toks = self.expand_sequence(scanner.Buffer(toks.copy()))
-        self.extracted = extracted
+        # NB: expand_arguments() may be about to append to this very list
+        del self.extracted[n_extracted:]
         for inline, inline_sav, display, display_sav in math_repls:
             inline[:] = inline_sav
             display[:] = display_sav
